@@ -75,7 +75,12 @@ class StaticCondensation(Module):
         C = np.zeros((self.n, len(self.m)), dtype=np.result_type(float, self.X))
         C[self.m, ...] = np.eye(len(self.m))
         C[self.f, ...] = -self.X
-        return C @ dfdB @ C.T if isinstance(dfdB, DyadCarrier) else DyadCarrier(list(C.T), list(np.asarray(dfdB @ C.T)))
+        # Left factor [I; -(A_mf A_ff^-1)^T], which only equals C for a symmetric matrix
+        Amf = self.sig_in[0].state[self.m, ...][..., self.f]
+        Amf = Amf.toarray() if matrix_is_sparse(Amf) else np.asarray(Amf)
+        Cl = C.copy()
+        Cl[self.f, ...] = -self.module_LinSolve.solver.solve(Amf.T.copy(), trans='T')
+        return Cl @ dfdB @ C.T if isinstance(dfdB, DyadCarrier) else DyadCarrier(list(Cl.T), list(np.asarray(dfdB @ C.T)))
 
 
 class SystemOfEquations(Module):
